@@ -16,6 +16,7 @@ import (
 	"github.com/alephium/wormhole-fork/node/pkg/zzverif"
 	ethereum "github.com/ethereum/go-ethereum"
 	ethcommon "github.com/ethereum/go-ethereum/common"
+	"github.com/ethereum/go-ethereum/common/hexutil"
 	ethtypes "github.com/ethereum/go-ethereum/core/types"
 	"github.com/ethereum/go-ethereum/event"
 	"github.com/ethereum/go-ethereum/rpc"
@@ -35,6 +36,8 @@ type verifNode struct {
 	headSink  chan<- *NewBlock
 	receipt   func(tx ethcommon.Hash) (*ethtypes.Receipt, error)
 	head      uint64
+	latest    uint64
+	latestSet bool
 	headErr   bool
 	calls     []string
 	parseOf   map[int]*ethabi.AbiLogMessagePublished
@@ -71,6 +74,13 @@ func (n *verifNode) SubscribeForBlocks(ctx context.Context, sink chan<- *NewBloc
 	return &verifSub{make(chan error)}, nil
 }
 func (n *verifNode) RawCallContext(ctx context.Context, result interface{}, method string, args ...interface{}) error {
+	// the node's LATEST block number (eth_blockNumber): at or beyond the head the watcher is configured to read (on chains
+	// read at finalized height the two differ by the finality lag)
+	if r, ok := result.(*hexutil.Uint64); ok && method == "eth_blockNumber" && n.latestSet {
+		n.calls = append(n.calls, "latest")
+		*r = hexutil.Uint64(n.latest)
+		return nil
+	}
 	return errors.New("not scripted")
 }
 
@@ -216,6 +226,8 @@ func verifC10Reobserve(ctx context.Context) {
 	w := verifStartWatcher(cctx, node, wait)
 	node.head = zzverif.U64("head")
 	node.headErr = zzverif.Len("headErr", 0, 1) == 1
+	node.latest, node.latestSet = zzverif.U64("latest"), true
+	zzverif.Assume(node.latest >= node.head && node.latest < 1<<42)
 	blockNumber := zzverif.U64("blockNumber")
 	zzverif.Assume(node.head < 1<<41 && blockNumber < 1<<40)
 	status := zzverif.U64("status")
